@@ -118,6 +118,38 @@ theorem store_group_agrees (arr : Arr) (nx ny nz : Nat) (choices : List (List Na
   simp only [VIAL_GROUPS, List.mem_cons, List.not_mem_nil, or_false] at hg
   rcases hg with rfl | rfl | rfl | rfl | rfl | rfl <;> exact key _ (by decide) (by decide) (by decide)
 
+/-- **thinning inside a group stays inside the group**: a `uniform n` request
+(`n ≥ 1`, non-empty group) records only vials of the named group, and so does a
+`random n` request for every choice taken from the group's vials. -/
+theorem store_thinning_in_group (arr : Arr) (nz : Nat) (exts : List Nat) (s g : String) (choice : List Nat)
+    (mask0 : List Bool) (n : Nat)
+    (hg : firstGroup (lower s) = some g) (hm : maskOf arr nz exts [g] = .ok mask0)
+    (hn : digitRuns (lower s) none = [n]) :
+    (hasSub "random".toList (lower s) = false → hasSub "uniform".toList (lower s) = true →
+      0 < n → 0 < (whereTrue mask0).length →
+      ∃ m, interpretString arr nz exts s choice = .ok (m, false) ∧
+        ∀ i, i < exts.length → m.getD i false = true → mask0.getD i false = true)
+    ∧ (hasSub "random".toList (lower s) = true → n ≤ (whereTrue mask0).length →
+      (∀ v ∈ choice, v ∈ whereTrue mask0) →
+      ∃ m, interpretString arr nz exts s choice = .ok (m, true) ∧
+        ∀ i, i < exts.length → m.getD i false = true → mask0.getD i false = true) := by
+  have hm' : (match firstGroup (lower s) with
+            | some g => maskOf arr nz exts [g]
+            | none => pure (List.replicate exts.length true)) = .ok mask0 := by rw [hg]; exact hm
+  constructor
+  · intro hr hu hn0 hc
+    refine ⟨_, uniform_request_lemma arr nz exts s choice mask0 n hm' hr hu hn hn0 hc, ?_⟩
+    intro i hi h
+    rw [getD_maskFromIdx _ hi] at h
+    exact mem_whereTrue (uniformPick_mem hc hn0 i (by simpa using h))
+  · intro hr hle hsub
+    have := random_request_lemma arr nz exts s choice mask0 n hm' hr hn
+    rw [if_neg (by omega)] at this
+    refine ⟨_, this, ?_⟩
+    intro i hi h
+    rw [getD_maskFromIdx _ hi] at h
+    exact mem_whereTrue (hsub i (by simpa using h))
+
 /-! ### the code before fixes F7 and K5 -/
 
 /-- before fix F7 the trajectory table labelled a flat-shelf core vial (no exposed
